@@ -23,6 +23,11 @@ INTS = {'y': (1, False), 'n': (2, True), 'q': (2, False), 'i': (4, True), 'u': (
         'x': (8, True), 't': (8, False)}
 MAX_MSG = 2 ** 27
 MAX_ARRAY = 2 ** 26
+# C03's statement defines a well-formed message by header, padding, body-length word and serial; it does not mention the
+# 64 MiB limit on arrays INSIDE the body (that is the wire codec's domain, C01/C02).  `wf_parse(..., lax_body_arrays=True)`
+# decodes such a body anyway and lists the oversize arrays instead of refusing the message.
+_LAX_BODY_ARRAYS = [False]
+_OVERSIZE_ARRAYS = []
 
 # header field code -> (spec name, type)
 FIELD_TYPES = {1: 'o', 2: 's', 3: 's', 4: 's', 5: 'u', 6: 's', 7: 's', 8: 'g', 9: 'u'}
@@ -222,7 +227,10 @@ def dec_value(data, pos, t, big, fds, end):
         b, pos = _take(data, pos, 4, end)
         n = int.from_bytes(b, bo)
         if n > MAX_ARRAY:
-            raise NotWF('array of %d bytes' % n)
+            if _LAX_BODY_ARRAYS[0]:
+                _OVERSIZE_ARRAYS.append(n)      # observed, reported by wf_parse in 'body_arrays_over_limit'; not a verdict
+            else:
+                raise NotWF('array of %d bytes' % n)
         et = t[1:]
         pos = _skip(data, pos, ALIGN[et[0]], end)
         stop = pos + n
@@ -354,8 +362,10 @@ def ref_message(mtype, flags, serial, fields, body_sig, body_vals, big, version=
     return bytes(buf), fds
 
 
-def wf_parse(raw, fds=None, max_len=MAX_MSG):
-    """Strict structural parse of one message.  Returns a dict; raises NotWF with the reason."""
+def wf_parse(raw, fds=None, max_len=MAX_MSG, lax_body_arrays=False):
+    """Strict structural parse of one message.  Returns a dict; raises NotWF with the reason.
+    `lax_body_arrays`: an array of more than 2^26 bytes inside the BODY is not a reason to refuse the message (C03's
+    statement does not speak about it); such arrays are listed under 'body_arrays_over_limit'."""
     raw = bytes(raw)
     if len(raw) < 16:
         raise NotWF('shorter than the fixed header: %d bytes' % len(raw))
@@ -416,10 +426,16 @@ def wf_parse(raw, fds=None, max_len=MAX_MSG):
         seen[code] = (sig, val)
     missing = REQUIRED[mtype] - set(seen)
     body_sig = seen[8][1] if 8 in seen else ''
-    body_vals, bend = ref_decode_values(body_sig, raw, pad_end, big, fds)
+    del _OVERSIZE_ARRAYS[:]
+    _LAX_BODY_ARRAYS[0] = bool(lax_body_arrays)
+    try:
+        body_vals, bend = ref_decode_values(body_sig, raw, pad_end, big, fds)
+    finally:
+        _LAX_BODY_ARRAYS[0] = False
+    over = list(_OVERSIZE_ARRAYS)
     if bend != len(raw):
         raise NotWF('body of signature %r ends at %d, message at %d' % (body_sig, bend, len(raw)))
     return {'big': big, 'type': mtype, 'flags': flags, 'version': version, 'body_len': body_len,
             'serial': serial, 'array_len': arr_len, 'fields': fields, 'known': seen,
             'header_end': hdr_end, 'padding': padding, 'body': body, 'body_vals': body_vals,
-            'missing_required': sorted(missing)}
+            'missing_required': sorted(missing), 'body_arrays_over_limit': over}
